@@ -247,7 +247,8 @@ CHECKS = {
               'Monitors: each action once per member with that member and its own arguments; sequential in URI order with '
               'disjoint intervals; parallel_safe returns after every action ended, raises iff one raised and chains one of the '
               'raised errors; parallel never raises; failed open closes every link, raises and leaves the swarm closed; second '
-              'open raises. A subset uses real SyncCrazyflie members over sim:// links incl. an unreachable one.'),
+              'open raises. A subset uses real SyncCrazyflie members over sim:// links incl. an unreachable one. An overlap part keeps '
+              'two swarm-wide steps in flight on one Swarm (nested in an action, two caller threads) and judges each call on its own actions.'),
         note='Failure subsets exhaustive to the stated sizes; schedules sampled.',
         technique='call-log checker (exactly-once, ordering, error chaining) over enumerated failure subsets under a deterministic scheduler',
         engine='detsched', design='DESIGN.md §3 C19'),
